@@ -19,6 +19,7 @@ package net
 // every commit of that document up to v" (its DAG sync fetches the ancestors).
 
 import (
+	"bytes"
 	"context"
 	"encoding/json"
 	"errors"
@@ -554,12 +555,17 @@ type lRecvBlockService struct {
 	known  bool
 	fail   bool
 	synced *int
+	// every block handed over for storage with the cid it is to be filed under (C04: content addressing)
+	filed *[]blocks.Block
 }
 
 func (s lRecvBlockService) Blockstore() blockstore.Blockstore { return lRecvBlockstore{known: s.known} }
 
 // natively syncDAG runs for real on a block without links: it stores the block through the block service
 func (s lRecvBlockService) AddBlock(ctx context.Context, b blocks.Block) error {
+	if b != nil && s.filed != nil {
+		*s.filed = append(*s.filed, b)
+	}
 	*s.synced++
 	if s.fail {
 		return lErrUnreachable
@@ -569,8 +575,19 @@ func (s lRecvBlockService) AddBlock(ctx context.Context, b blocks.Block) error {
 
 // redirect target of syncDAG inside the solver run (storing a node encodes it with dag-cbor)
 func lSyncDAG(ctx context.Context, bs blockservice.BlockService, block *coreblock.Block) error {
+	if lRecvRaw != nil {
+		// the link system encodes the decoded block again and files it under the hash of those bytes
+		b, err := blocks.NewBlockWithCid(lRecvRaw, lRecvOwn)
+		if err != nil {
+			return err
+		}
+		return bs.AddBlock(ctx, b)
+	}
 	return bs.AddBlock(ctx, nil)
 }
+
+var lRecvRaw []byte
+var lRecvOwn cid.Cid
 
 type lRecvBus struct {
 	event.Bus
@@ -658,4 +675,52 @@ func VerifH_C16_ReplicatorMap() {
 	_, has := e.p.server.replicators[lCols[0]][e.pid]
 	vAssert(has, "configured-replicator-stays-configured")
 	vObserve("done", true)
+}
+
+// VerifH_C04_ReceivedBlockFiledUnderItsHash — C04: a pushed commit whose message claims a cid that is not the hash of the
+// bytes it carries (altered in transit, or a forged message) is never filed under the claimed cid: whatever the real
+// processPushlog hands to the block service is filed under the hash of its own bytes.
+func VerifH_C04_ReceivedBlockFiledUnderItsHash() {
+	synced := 0
+	var filed []blocks.Block
+	bus := &lRecvBus{}
+	p := &Peer{ctx: context.Background(), bus: bus, blockService: lRecvBlockService{known: vBool("head-already-stored"), synced: &synced, filed: &filed}}
+	s := &server{peer: p}
+	p.server = s
+	const docID = "bae-0b7a5c3e-1c5d-5e3a-9c1b-0f6f1f4a1a01"
+	blk := coreblock.New(&crdt.DocCompositeDelta{DocID: []byte(docID), Priority: 1, SchemaVersionID: lRoot, Status: client.Active}, nil)
+	lRecvBlock = blk
+	raw, err := blk.Marshal()
+	if err != nil {
+		panic("Marshal")
+	}
+	own, claimed := lFakeCid(0, 1), lFakeCid(0, 2)
+	if !vSymbolic() {
+		lnk, err := blk.GenerateLink()
+		if err != nil {
+			panic("GenerateLink")
+		}
+		own = lnk.Cid
+		// the cid of another commit
+		other := coreblock.New(&crdt.DocCompositeDelta{DocID: []byte(docID), Priority: 7, SchemaVersionID: lRoot, Status: client.Active}, nil)
+		ol, err := other.GenerateLink()
+		if err != nil {
+			panic("GenerateLink")
+		}
+		claimed = ol.Cid
+	}
+	if !vBool("message-claims-another-cid") {
+		claimed = own
+	}
+	lRecvRaw, lRecvOwn = raw, own
+	ctx := grpcpeer.NewContext(context.Background(), &grpcpeer.Peer{Addr: lAddr(lPeer)})
+	req := &pushLogRequest{DocID: docID, CID: claimed.Bytes(), CollectionID: lRoot, Creator: lPeer, Block: raw}
+	_, _ = s.processPushlog(ctx, req, true)
+	vCover("received")
+	for _, b := range filed {
+		if bytes.Equal(b.RawData(), raw) {
+			vAssert(b.Cid() == own, "received-bytes-are-filed-under-the-hash-of-their-own-bytes")
+		}
+	}
+	vObserve("filed", len(filed) <= 2)
 }
